@@ -18,6 +18,7 @@ EXPLANATION = (
     "(pattern variant <-> element type) is enforced by rustc's type inference on the generated arms and is not re-checked. The scalar semantics of OP itself (Rust's operator on the primitive type) is trusted. "
     "Not decided: overflow/rounding behaviour of the Rust operators."
     ' (R4, strengthened) the shape guard of every same-form arm is DECIDED over the finite table of operand shapes {1,2,3}^2 x {1,2,3}^2 admitted by the storage forms: it must fire for every unequal pair and for no equal pair; (R7) the per-variant arms of Value::kind/shape/is_matrix/is_scalar keep their frozen sibling partition (deviant-sibling check).'
+    ' (R8) the output buffer a dispatch arm allocates (`DMatrix/DVector/RowDVector::from_element(shape.., default)`) has the shape of the (equal-shaped) matrix operand(s), decided over the finite shape table for every unary and binary arm.'
 )
 
 # oracle: operator enum variant -> operator the kernel must apply (from the property statement / spec 6.1.3)
